@@ -227,9 +227,16 @@ def run_impl(columns, values, system, kw=None, int_cols=(), cwd_dir: Optional[st
                 src = os.path.join(REPO, "cij", "data", "constraints", system)
                 # user_file=True: a file with a name of its own; user_file="dir/name": that relative path under the scratch
                 # directory (e.g. a file NAMED like another packaged system inside a sub-directory) — the content is what counts
-                arg = os.path.join(tmp, "my_relations.txt" if user_file is True else user_file)
-                os.makedirs(os.path.dirname(arg), exist_ok=True)
-                shutil.copyfile(src, arg)
+                if isinstance(user_file, str) and user_file.startswith("cwd:"):
+                    # a file in the WORKING directory, passed by its bare name (e.g. "Cubic", "TETRAGONAL7": not a packaged name —
+                    # names are case-sensitive — so it is the user's file)
+                    arg = user_file[4:]
+                    shutil.copyfile(src, os.path.join(tmp, arg))
+                    os.chdir(tmp)
+                else:
+                    arg = os.path.join(tmp, "my_relations.txt" if user_file is True else user_file)
+                    os.makedirs(os.path.dirname(arg), exist_ok=True)
+                    shutil.copyfile(src, arg)
         try:
             out = fill_cij(df, arg, **kw)
         except BaseException as e:           # Warning is an Exception subclass; keep KeyboardInterrupt out
